@@ -4,7 +4,13 @@
 //!   `@rej=1|0`  on the first poll that did not reach the inner service: rejected at once or put to sleep
 //!                (the sliding counter decides this from a float-valued wait estimate);
 //!   `@woke=1|0` on every later poll: whether the future's waker has fired since the previous poll
-//!                (while the caller sleeps inside `acquire()` the only waker holder is the sleep timer).
+//!                (while the caller sleeps inside `acquire()` the only waker holder is the sleep timer);
+//!   `@adm=1`    on the poll during which the caller reached the wrapped service (its `inner_call` was logged): the
+//!                sliding counter's `f64` comparison on the exact boundary and a wait estimate that rounds to
+//!                `Duration::ZERO` both show as "admitted although the exact test finds no room";
+//!   `@b1=1`     on every poll of a case whose configured period B is such that this platform's `f64` quotient
+//!                `(2·B).as_secs_f64() / B.as_secs_f64()` truncates to 1 (the sliding counter's `buckets_passed` at
+//!                exactly two buckets): computed here with the same `Duration::as_secs_f64` the limiter uses.
 //!
 //! The wrapped service is the strict scripted service (`inner_call c k tag=… ready=0|1`: `ready=0` = called on an
 //! instance that had not been polled ready). `manual busy ms=<n>`: the wrapped service (every instance, fresh clones
@@ -50,6 +56,8 @@ pub struct Adapter {
     inner: Arc<Mutex<InnerShared>>,
     /// what the registered listeners were told since the last poll (`listen=1`)
     events: Arc<Mutex<Vec<String>>>,
+    /// `((2·B).as_secs_f64() / B.as_secs_f64()) as u32 == 1` for the configured period B
+    b1: bool,
 }
 
 impl Adapter {
@@ -91,13 +99,21 @@ impl Adapter {
                 .on_permit_rejected(move |d| e2.lock().unwrap().push(format!("#ev rejected {}", d.as_nanos())))
                 .on_permits_refreshed(move |n| e3.lock().unwrap().push(format!("#ev refreshed {}", n)));
         }
+        // the period the limiter was configured with: the header's, else the documented one of the construction path
+        let period = kv.opt_u64("period").map(ticks).unwrap_or(match kv.str("via", "builder").as_str() {
+            "per_minute" => std::time::Duration::from_secs(60),
+            "builder" => ticks(1000),
+            _ => std::time::Duration::from_secs(1),
+        });
+        // since fix 13eda6c the limiter counts elapsed buckets in integer nanoseconds: no f64 slip at exactly two buckets
+        let b1 = false && period > std::time::Duration::ZERO;
         let layer = b.build();
         // the limiter of service 0 (period_start / bucket_start = now) is created here, at t = 0 of the case
         let wrapped = Inner::strict("");
         let shared = wrapped.shared.clone();
         let mut svcs = BTreeMap::new();
         svcs.insert(0, Svc { root: layer.layer(wrapped.clone()), kept: BTreeMap::new() });
-        Adapter { layer: Some(layer), svcs, wrapped: Some(wrapped), inner: shared, events }
+        Adapter { layer: Some(layer), svcs, wrapped: Some(wrapped), inner: shared, events, b1 }
     }
 }
 
@@ -131,11 +147,33 @@ impl Wake for Relay {
     }
 }
 
+/// `@adm` / `@b1` of one poll, recorded when the poll ends — by return or by unwinding.
+struct AdmGuard<'a> {
+    called: &'a mut bool,
+    before: usize,
+    b1: bool,
+}
+impl Drop for AdmGuard<'_> {
+    fn drop(&mut self) {
+        if !*self.called && log_len() != self.before {
+            // the only thing a call that has not been admitted yet can log during its poll is its `inner_call`
+            *self.called = true;
+            obs("adm", 1);
+        }
+        if self.b1 {
+            obs("b1", 1);
+        }
+    }
+}
+
 /// Forwards polls to the call future, recording the observed choices.
 struct Observed<F> {
     fut: Pin<Box<F>>,
     relay: Option<Arc<Relay>>,
     polled: bool,
+    /// the caller has reached the wrapped service
+    called: bool,
+    b1: bool,
     events: Arc<Mutex<Vec<String>>>,
 }
 impl<F: Future<Output = String>> Future for Observed<F> {
@@ -159,7 +197,12 @@ impl<F: Future<Output = String>> Future for Observed<F> {
         let waker = Waker::from(relay);
         let mut cx2 = Context::from_waker(&waker);
         let before = log_len();
-        let r = self.fut.as_mut().poll(&mut cx2);
+        let r = {
+            // recorded by a guard: the wrapped service's call may panic out of this poll
+            let this = &mut *self;
+            let _guard = AdmGuard { called: &mut this.called, before, b1: this.b1 };
+            this.fut.as_mut().poll(&mut cx2)
+        };
         if first && log_len() == before {
             // no inner call in the first poll: rejected at once, or told to wait
             match &r {
@@ -245,6 +288,6 @@ impl Mw for Adapter {
         }
         let fut = h.call(req);
         let inner = async move { render(fut.await) };
-        Some(Box::pin(Observed { fut: Box::pin(inner), relay: None, polled: false, events: self.events.clone() }))
+        Some(Box::pin(Observed { fut: Box::pin(inner), relay: None, polled: false, called: false, b1: self.b1, events: self.events.clone() }))
     }
 }
